@@ -1805,6 +1805,8 @@ def run(chk, tier):
     chk.guard('C10.z2', lambda: rule_member_qualifiers(chk, prog, tier))
     from props import c12
     chk.guard('C12.b', lambda: c12.rule_redef(chk, prog, tier))             # 6.10.3p2 is a constraint: an incompatible macro redefinition must be diagnosed
+    from props import c09
+    chk.guard('C09.b', lambda: c09.rule_histories(chk, prog, tier))       # linkage conflicts and redefinitions are constraint violations (6.2.2p7, 6.9p3-5): diagnosed for every history of declarations
     from props import c08
     chk.guard('C08.e', lambda: c08.rule_valist(chk, prog, tier))        # va_arg of a structure or union (unsupported) is diagnosed
     from props import c05
